@@ -15,6 +15,7 @@
 package msg
 
 import (
+	"errors"
 	"io"
 
 	jsonMsg "github.com/fatedier/golib/msg/json"
@@ -31,8 +32,17 @@ func init() {
 	}
 }
 
+// ErrInvalidBody is returned by ReadMsg for a well-formed frame whose body decodes to no message.
+var ErrInvalidBody = errors.New("invalid message body")
+
 func ReadMsg(c io.Reader) (msg Message, err error) {
-	return msgCtl.ReadMsg(c)
+	msg, err = msgCtl.ReadMsg(c)
+	if err == nil && msg == nil {
+		// The JSON literal null unmarshals into the decoder's interface value as nil:
+		// never hand "no message and no error" to the caller.
+		err = ErrInvalidBody
+	}
+	return msg, err
 }
 
 func ReadMsgInto(c io.Reader, msg Message) (err error) {
